@@ -6,7 +6,7 @@ Coq on every combination (coq/Gen/CasesC07.v, regenerated on every run)."""
 import itertools, json, math
 from harness.common import fhex
 PID = "C07"; COQ_TARGET = "C07"
-RULE = ("exhaustive: {stochastic} x {delay None/False/True} x {safe} x {volume False/True/1.7/Volume()/dividing StochasticTimeThresholdVolume} x {dataframe, result object} x {Model, pre-built interface} = 240 "
+RULE = ("exhaustive: {stochastic} x {delay None/False/True} x {safe} x {volume False/0/0.0/numpy.False_/True/1.7/Volume()/dividing StochasticTimeThresholdVolume} x {dataframe, result object} x {Model, pre-built interface} = 384 "
         "combinations x 6 models (with/without delayed reactions, with/without assignment rules, rules on the dt schedule, rules scheduled at the start), uniform grid from 0; non-trivial = every combination")
 TRUSTED = ["hand model coq/Model/Dispatch.v tied by exhaustive correspondence over the option lattice"]
 ASSUMPTIONS = ["numeric volumes are positive (quantifier)", "shape / label / first-row clauses are decided by the harness oracle on the lattice; mechanised only for the SSA loop's row count"]
@@ -29,7 +29,8 @@ MODELS = {
 }
 FIRST_ROW = {"plain": {"A": 9.0, "B": 2.0}, "delay": {"A": 9.0, "B": 2.0}, "rules": {"A": 9.0, "B": 2.0, "R": 19.0, "T2": 28.0}, "delay+rules": {"A": 9.0, "B": 2.0, "R": 11.0},
              "dtrules": {"A": 9.0, "B": 2.0, "R": 19.0, "D1": 29.0}, "startrules": {"A": 9.0, "B": 2.0, "ST": 46.0, "S0": 11.0}}
-VOLS = ["off", "true", "num", "obj", "divobj"]   # divobj: an initialised StochasticTimeThresholdVolume that divides inside the window
+# off0 / off0f / offnp: the flag "off" as users' code often holds it -- 0, 0.0, numpy.False_ -- not the singleton False (seeded change S6_C07)
+VOLS = ["off", "true", "num", "obj", "divobj", "off0", "off0f", "offnp"]   # divobj: an initialised StochasticTimeThresholdVolume that divides inside the window
 
 def gen_cases(seed, tier):
     cases = []
@@ -56,6 +57,9 @@ def impl_case(case):
     T = np.linspace(0, 2, 9) if case.get("grid") != "square" else np.linspace(0, 2, len(m["species"]))
     kw = {"stochastic": case["stochastic"], "delay": case["delay"], "safe": case["safe"], "return_dataframe": case["df"]}
     if case["volume"] == "off": kw["volume"] = False
+    elif case["volume"] == "off0": kw["volume"] = 0
+    elif case["volume"] == "off0f": kw["volume"] = 0.0
+    elif case["volume"] == "offnp": kw["volume"] = np.False_
     elif case["volume"] == "true": kw["volume"] = True
     elif case["volume"] == "num": kw["volume"] = 1.7
     elif case["volume"] == "obj":
@@ -95,7 +99,7 @@ def impl_case(case):
 def driver_line(case, r):
     b = lambda x: "1" if x else "0"
     d = {None: "none", False: "false", True: "true"}[case["delay"]]
-    v = {"off": "off", "true": "true", "num": "numpos", "obj": "obj", "divobj": "obj"}[case["volume"]]
+    v = {"off": "off", "true": "true", "num": "numpos", "obj": "obj", "divobj": "obj", "off0": "off", "off0f": "off", "offnp": "off"}[case["volume"]]
     return " ".join(["dispatch", b(case["via"] in ("model", "both")), b(case["via"] in ("interface", "both")), b(case["stochastic"]), d, b(case["safe"]), v, b(case["df"])])
 
 KIND_TYPE = {"det": "SSAResult", "ssa": "SSAResult", "volssa": "VolumeSSAResult", "delayssa": "DelaySSAResult", "delayvolssa": "DelayVolumeSSAResult"}
@@ -117,7 +121,7 @@ def oracle(case, r):
     if r["outcome"] == "ValueError":
         return None if ("Model" in r["msg"] or "Interface" in r["msg"] or "option" in r["msg"].lower()) else "from inside: ValueError not about the options: %s (%s)" % (r["msg"], tag)
     if r["outcome"] != "returned": return "from inside: %s: %s (%s)" % (r["outcome"], r.get("msg"), tag)
-    T = r["T"]; sp = r["species"]; uses_vol = case["volume"] != "off" and (case["stochastic"] or case["delay"] is True)
+    T = r["T"]; sp = r["species"]; uses_vol = not case["volume"].startswith("off") and (case["stochastic"] or case["delay"] is True)
     if r.get("has_volume") and r["nvol"] != r["nrows"]: return "rows: %d rows but %d volume entries (%s)" % (r["nrows"], r["nvol"], tag)
     if r["nrows"] > len(T) or r["nrows"] < 1: return "rows: %d rows for %d time points (%s)" % (r["nrows"], len(T), tag)
     if r["nrows"] != len(T) and not (case["volume"] == "divobj" and uses_vol): return "rows: %d rows for %d time points (%s)" % (r["nrows"], len(T), tag)
@@ -138,7 +142,7 @@ def nontrivial(case): return True
 def key(case): return json.dumps(case, sort_keys=True)
 def stats(cases):
     from collections import Counter
-    return {"per_model": dict(Counter(c["model"] for c in cases)), "exhaustive_option_combinations": 240}
+    return {"per_model": dict(Counter(c["model"] for c in cases)), "exhaustive_option_combinations": 384}
 def extra_checks(ctx):
     """Besides the counts: the dispatcher model is ALSO evaluated inside Coq on every distinct option combination of the run -- the
     harness writes coq/Gen/CasesC07.v with one Example per combination, `class (dispatch options) = what the implementation did`
@@ -165,7 +169,7 @@ def extra_checks(ctx):
     for n_, k in enumerate(keys):
         via, st, d, sf, v, df = k; code = seen[k][0]
         o = "mkOpts %s %s %s %s %s %s %s" % (B(via in ("model", "both")), B(via in ("interface", "both")), B(st), {None: "TNone", False: "TFalse", True: "TTrue"}[d], B(sf),
-                                          {"off": "VOff", "true": "VTrue", "num": "VNumPos", "obj": "VObj", "divobj": "VObj"}[v], B(df))
+                                          {"off": "VOff", "true": "VTrue", "num": "VNumPos", "obj": "VObj", "divobj": "VObj", "off0": "VOff", "off0f": "VOff", "offnp": "VOff"}[v], B(df))
         lines.append("Example d_%d : class %s (dispatch (%s)) = %d. Proof. vm_compute. reflexivity. Qed." % (n_, B(df), o, code))
     gen = os.path.join(C.COQ, "Gen", "CasesC07.v"); os.makedirs(os.path.dirname(gen), exist_ok=True)
     open(gen, "w").write("\n".join(lines) + "\n")
